@@ -181,7 +181,7 @@ def run(report, index, tier):
                   Obj('LexToken', type='ID', value='b', lineno=1,
                       lexpos=2, colno=3), None]
         it = iter(stream)
-        from .c04 import mk_lexer_obj
+        from .c04 import mk_lexer_obj, hand
         lexer = mk_lexer_obj(lm=M.lexmodel)
         lexer.with_comments = wc
         lexer.yield_comments = yc
@@ -189,7 +189,8 @@ def run(report, index, tier):
                           begin=('pyfunc', lambda state: None))
         # only the raw token source is a stand-in: _get_update_token and
         # _set_tokens (the line terminator evidence) are the real ones
-        lexer.get_lexer_token = ('pyfunc', lambda it=it: next(it))
+        lexer.get_lexer_token = ('pyfunc', lambda it=it, lexer=lexer:
+                                 hand(lexer, next(it)))
         got = []
         for _ in range(3):
             ev = Evaluator(lm, 'Lexer', lmeth, {})
@@ -253,12 +254,13 @@ def run(report, index, tier):
         t2 = Obj('LexToken', type='ID', value='b', lineno=2, lexpos=12,
                  colno=1)
         it = iter([c1, t1, c2, lt, t2, None])
-        from .c04 import mk_lexer_obj
+        from .c04 import mk_lexer_obj, hand
         lexer = mk_lexer_obj(lm=M.lexmodel)
         lexer.with_comments = True
         lexer.lexer = Obj('PlyLexer', lexdata='ab', lexpos=0,
                           begin=('pyfunc', lambda state: None))
-        lexer.get_lexer_token = ('pyfunc', lambda it=it: next(it))
+        lexer.get_lexer_token = ('pyfunc', lambda it=it, lexer=lexer:
+                                 hand(lexer, next(it)))
         handed = []
         try:
             for _ in range(6):
